@@ -129,6 +129,35 @@ fn check_inner(pattern: &str, text: &str) -> Option<String> {
             }
         }
     }
+    // C16 / C09 through the builder's other options: group metadata and captures do not depend on size limits, case folding aside
+    for which in 0..3 {
+        let mut b = fancy_regex::RegexBuilder::new(pattern);
+        match which {
+            0 => { b.delegate_size_limit(64 << 20); }
+            1 => { b.delegate_dfa_size_limit(64 << 20); }
+            _ => { b.delegate_size_limit(64 << 20).delegate_dfa_size_limit(64 << 20).backtrack_limit(usize::MAX); }
+        }
+        if let Ok(rb) = b.build() {
+            if rb.captures_len() != n {
+                return Some(format!("builder variant {}: captures_len {} != {}", which, rb.captures_len(), n));
+            }
+            let nb: Vec<_> = rb.capture_names().collect();
+            if nb != names {
+                return Some(format!("builder variant {}: capture_names differ", which));
+            }
+            let c0 = re.captures(text).map(|c| c.map(|c| (0..c.len()).map(|i| c.get(i).map(|m| (m.start(), m.end()))).collect::<Vec<_>>())).map_err(|_| ());
+            let c1 = rb.captures(text).map(|c| c.map(|c| (c.len(), (0..c.len()).map(|i| c.get(i).map(|m| (m.start(), m.end()))).collect::<Vec<_>>()))).map_err(|_| ());
+            match (&c0, &c1) {
+                (Ok(Some(a)), Ok(Some((l, b2)))) => {
+                    if *l != n || a != b2 {
+                        return Some(format!("builder variant {}: captures {:?} (len {}) differ from Regex::new's {:?} (captures_len {})", which, b2, l, a, n));
+                    }
+                }
+                (Ok(None), Ok(None)) | (Err(_), Err(_)) => {}
+                _ => return Some(format!("builder variant {}: captures disagree with Regex::new", which)),
+            }
+        }
+    }
     // replace must not panic and must keep non-matching text
     let _ = re.try_replacen(text, 0, "[$0]");
     let _ = re.try_replacen(text, 0, fancy_regex::NoExpand("x"));
